@@ -257,3 +257,15 @@ def run(ctx, rep):
                 and verdict(result_fates(prog, pc, wr[0])) == 'ok'
     rep.check(ok, 'R6', 'written', w(pc), 'write_toml_file(normalize(read(<src>/package.toml), that path, id->path map)?, <dest>/package.toml)?',
               'the composite package.toml written is not the normalised source descriptor')
+    # ... and it is the ONLY way <destination>/package.toml comes into being, on every success path: a second writer (a
+    # verbatim fs::copy "fast path", a conditional skip of the normalising write) would leave relative paths behind
+    from .lib.effects import Effects as _Eff
+    E6 = _Eff(prog, sl)
+    is_dest_pkg = lambda v: strip(v)[0] == 'call' and strip(v)[1] in ('std::path::Path::join', 'std::path::PathBuf::join') \
+        and strip(strip(v)[2][0])[0] == 'param' and strip(strip(v)[2][0])[2] == 1 and strip(strip(v)[2][1]) == ('const', 'package.toml')
+    via_writer = lambda e: any((c.name or '') == 'libcnb_common::toml_file::write_toml_file' for c in list(e.chain) + [e.call])
+    may_w = [e for e in E6.expand(pc, 'may') if e.kind in ('WRITE', 'RENAME', 'OPEN') and e.path is not None and is_dest_pkg(e.path)]
+    must_w = [e for e in E6.expand(pc, 'must') if e.kind == 'WRITE' and e.path is not None and is_dest_pkg(e.path) and via_writer(e)]
+    others = [e for e in may_w if not via_writer(e)]
+    rep.check(bool(must_w) and not others, 'R6', 'only-writer', w(pc), 'the normalising write is the only writer of <destination>/package.toml and runs on every success path',
+              'package.toml can reach the destination without normalisation: %s' % ([('%s via %s' % (e.call.name, e.via())) for e in others] or 'the normalising write is conditional'))
